@@ -238,6 +238,9 @@ fn best_paths<K: Kmer>(o: &mut Outcome, stage: &str, g: &DebruijnGraph<K, u16>, 
         for beam in [1usize, 3] {
             let path = g.max_path_beam(beam, |d| *d as f32, |_| true);
             o.transitions += 1;
+            if !path.is_empty() && !spelled(&path) {
+                o.fail("beam-path-misspelled", format!("[{}] max_path_beam({}) = {:?}: sequence_of_path does not spell the walked nodes' k-mers", stage, beam, path));
+            }
             for w in path.windows(2) {
                 if !step_ok(w[0], w[1]) {
                     o.fail("beam-path-not-a-walk", format!("[{}] max_path_beam({}) = {:?}: {:?} -> {:?} is not a reported edge", stage, beam, path, w[0], w[1]));
